@@ -23,6 +23,9 @@ ASSUMPTIONS = ["C07_binding: every data line carries the same number c >= 1 of v
                "C07_rect has no hypothesis: it holds after ANY successful read of the model"]
 
 
+DECL = {}
+
+
 def make_doc(rng, d, c, r, wrapped, plain=False):
     cells = [[str(1000 * i + j) for j in range(c)] for i in range(r)]
     body = []
@@ -35,9 +38,12 @@ def make_doc(rng, d, c, r, wrapped, plain=False):
     if not plain:
         body = dd.sprinkle(rng, body, 0.1, 0.1)
     after = [] if plain else rng.choice(dd.AFTER)
-    head = dd.header(wrap=("YES" if wrapped else "NO"), declared=(None if (d == 0 and rng.random() < 0.5) else dd.names(d)))
+    numeric = d >= 3 and rng.random() < 0.3
+    decl = dd.names(d, numeric=numeric)
+    head = dd.header(wrap=("YES" if wrapped else "NO"), declared=(None if (d == 0 and rng.random() < 0.5) else decl))
     text = dd.assemble(head, rng.choice(dd.TITLES[:4]), body, after, eol=("\n" if plain else rng.choice(["\n", "\n", "\r\n"])),
                        final_newline=plain or rng.random() < 0.8)
+    DECL[text] = decl
     return text
 
 
@@ -60,7 +66,9 @@ def oracle(run, case, res, d, c, r):
     if len(curves) != max(d, c):
         run.fail("curve-count", case, {"got": len(curves), "want": max(d, c)})
         return
-    decl = dd.names(d)
+    decl = DECL.get(case.get("text"), dd.names(d))
+    if len(DECL) > 20000:
+        DECL.clear()
     for j, (name, kind, data) in enumerate(curves):
         if len(data) != r:
             run.fail("length", case, {"curve": j, "len": len(data)})
@@ -98,6 +106,15 @@ def run(run):
             else:
                 run.fail("read-error", case, res["res"])
             dd.compare(run, "fixed/" + eng, text, {"engine": eng}, res, True, case=case)
+    # empty inner ~A (fixed finding 965fe63): context (r = 0); the declared curve must come back empty, nothing of ~P read as data
+    for eng in ("numpy", "normal"):
+        case = {"text": dd.EMPTY_INNER_A, "fixed": "empty-inner-A", "kw": {"engine": eng}}
+        run.case(case, nontrivial=True, tags=["fixed-input"])
+        res = dd.real_read(dd.EMPTY_INNER_A, engine=eng)
+        rect(run, case, res)
+        if res["res"][0] != "ok" or [c[2] for c in res["res"][1]] != [[]]:
+            run.fail("empty-section", case, res["res"])
+        dd.compare(run, "fixed-context/" + eng, dd.EMPTY_INNER_A, {"engine": eng}, res, False, case=case)
     # (a) exhaustive (d, c, r) x engines x layouts
     reps = run.budget(4, 16)
     for d in range(0, 7):
